@@ -124,6 +124,20 @@ theorem kill_safe_map (as : List Action) (s : State) (hnr : NoReset as)
   exact ⟨(reach_map c hv hm hio as s hnr hr hd).1.fin hstop,
     (epoch_complete_map c hv hm hio as s hnr hr hd ha hstop).1⟩
 
+/-- **C05 `delta_at_yield`** (map-style).  Worker state deltas are applied when their batch is consumed,
+not when it arrives: in every reachable state the accumulated worker snapshots equal `wsAfter c rcvd_idx`,
+a function of the number of tasks consumed so far only (= the number of yields when no fetch fails) — never
+of what the workers have prefetched or of the arrival order; and the delta carried by the result of task
+`idx` is `stOf c idx`, the state of worker `idx % W` after its `(idx / W + 1)`-th fetch. -/
+theorem delta_at_yield_map (as : List Action) (s : State) (hnr : NoReset as)
+    (hr : run c (init c) as = some s) (hd : ¬ died s) :
+    s.wsnaps = wsAfter c s.rcvdIdx ∧ (errFree c → s.rcvdIdx = (yields s.obs).length) := by
+  rcases run_deltaM c as (init c) s hv hm hio hnr
+    (Or.inl ⟨init_invM c hv hm hio, init_deltaM c hv hm hio⟩) hr with h | h
+  · obtain ⟨_, hs⟩ := reach_map c hv hm hio as s hnr hr hd
+    exact ⟨h.2.ws, fun he => by rw [← hs.al he, hs.ny]⟩
+  · exact absurd h hd
+
 end Map
 
 /-- **C09 `kill_detected`** (every configuration, every state): if the consumer is blocked with an empty
